@@ -71,6 +71,12 @@ Added after independent mutation testing found a gap:
       The reported code/reason are now captured AT THE MOMENT of the notification: inside on_message_callback(None)
       (vlib/wsharness.ClientSide.close_seen), when the read_message() future resolves with None, and -- server -- the
       values on_close itself saw; the "== the peer's when its close frame was processed" clause is asserted on those.
+  M13 control-frame length check off by one (`payloadlen >= 125` instead of `>= 126`): a close frame with code + 123-byte
+      reason (payload exactly 125) or a 125-byte ping aborts the connection: no echo, close notification with (None, None)
+                                                                      -> C16.reported_close_code (all parts) / C16.ping_not_answered, seeds 1-3
+      PEER_CLOSE / CLOSE_ARGS now contain reasons of 1, 122 and 123 bytes (ASCII, multi-byte, and ending in a multi-byte
+      character exactly at byte 123); peer pings have 0, 1, 2, 124 or 125 bytes and must be answered by a pong with the same
+      payload (new clause C16.ping_not_answered, also after the local close()).
   False alarm corrected while adding M11 (seed 5): after close() on a transport that the FIN had already closed
   nothing reaches the wire, but the 5 s abort timer is armed all the same -- the EITHER guard now uses the time of
   the close() call, not the time the close frame was seen on the wire.
@@ -110,8 +116,17 @@ LEVEL_TEXT = (
 )
 SHARDS = 16
 
-CLOSE_ARGS = [(None, None), (None, None), (1000, None), (1001, "going away"), (None, "only a reason"), (3000, "x"), (4999, "é✓")]
-PEER_CLOSE = [(None, None), (1000, None), (1000, "bye"), (1001, "näher"), (3001, "r" * 100), (4000, "")]
+# reasons at the boundary: a close payload is 2 bytes of code + reason and, like every control payload, at most 125
+# bytes long (RFC 6455 5.5), so the longest legal reason has 123 bytes -- also one whose last character is multi-byte
+R123 = "r" * 123
+R123_MULTIBYTE = "é" * 60 + "abc"          # 60*2 + 3 = 123 bytes, 63 characters
+R123_ENDS_MULTIBYTE = "a" + "✓" * 40 + "é"  # 1 + 40*3 + 2 = 123 bytes, last character 2 bytes
+assert all(len(r.encode("utf-8")) == 123 for r in (R123, R123_MULTIBYTE, R123_ENDS_MULTIBYTE))
+CLOSE_ARGS = [(None, None), (None, None), (1000, None), (1001, "going away"), (None, "only a reason"), (3000, "x"), (4999, "é✓"),
+              (1000, R123), (None, "r" * 122), (3000, R123_ENDS_MULTIBYTE)]
+PEER_CLOSE = [(None, None), (1000, None), (1000, "bye"), (1001, "näher"), (3001, "r" * 100), (4000, ""),
+              (1000, "x"), (1001, "r" * 122), (1000, R123), (3000, R123_MULTIBYTE), (4999, R123_ENDS_MULTIBYTE)]
+PING_PAYLOADS = [b"", b"p", b"\x00\xff", b"p" * 124, b"p" * 125, b"p" * 125]   # 125 = the largest legal control payload
 text_s = st.sampled_from(["", "hi", "héllo", "x" * 200])
 
 
@@ -282,7 +297,7 @@ ref_op_s = st.one_of(
     st.tuples(st.just("burst"), st.one_of(st.none(), text_s), st.sampled_from(PEER_CLOSE), st.lists(st.sampled_from([1, 2, 5, 6, 7, 8, 12]), max_size=3), st.booleans()),
     st.tuples(st.just("write"), text_s),
     st.tuples(st.just("app_ping"),),
-    st.tuples(st.just("peer_ping"), st.binary(max_size=4)),
+    st.tuples(st.just("peer_ping"), st.sampled_from(PING_PAYLOADS)),
     st.tuples(st.just("eof"), st.sampled_from(["fin", "rst"]), st.sampled_from([0, 0, 1, 3])),
     st.tuples(st.just("advance"), st.sampled_from([0.5, 1.0, 4.0, 4.999999, 5.0, 5.000001, 6.0, 30.0])),
     st.tuples(st.just("advance"), st.sampled_from([0.5, 1.0, 4.0, 4.999999, 5.0, 5.000001, 6.0, 30.0])),
@@ -477,8 +492,17 @@ def run_ref(ctx, case):
             elif kind == "peer_ping":
                 if side.eof or partial or fed_close is not None:
                     continue
+                n_pongs = sum(1 for e in peer.poll().events if e[0] == "pong")
                 await peer.send(enc.frame(wsref.OP_PING, op[1]))
                 cause = "delivery"
+                labels.add("peer_ping_%d" % len(op[1]) if len(op[1]) >= 124 else "peer_ping")
+                if out["open_at_step_start"] and not blocked() and side.peer_close is None:
+                    # a ping is answered "as soon as is practical" with a pong carrying the same payload (5.5.2/5.5.3),
+                    # also after the local close(): only the peer's close frame ends Tornado's reading
+                    pongs = [e[1] for e in peer.poll().events if e[0] == "pong"][n_pongs:]
+                    if pongs != [op[1]]:
+                        ctx.fail("C16.ping_not_answered", {"step": step, "payload_len": len(op[1]), "pongs": [len(x) for x in pongs],
+                                                           "closed": side.stream.closed(), "role": role})
             elif kind == "eof":
                 if side.eof:
                     continue
@@ -900,11 +924,12 @@ def run_ping(ctx, case):
         if ending in ("peer_close", "peer_close_late") and not side.stream.closed():
             if ending == "peer_close_late" and side.sent_close is not None:
                 await peer.advance(4.999)
-            frame = enc.frame(wsref.OP_CLOSE, wsref.close_payload(1000, "ok"))
+            late_reason = "ok" if len(case["rounds"]) % 2 else R123
+            frame = enc.frame(wsref.OP_CLOSE, wsref.close_payload(1000, late_reason))
             pre_open = not side.stream.closed()
             await peer.send(frame)
             if pre_open:
-                side.peer_close = (1000, "ok")
+                side.peer_close = (1000, late_reason)
             check_wire(ctx, side, "end", ending, loop.time(), labels, "delivery")
         elif ending == "disconnect" and not side.stream.closed():
             if side.sent_close is not None:
